@@ -344,7 +344,7 @@ func allHandlers(p *load.Program) (fns []*ssa.Function, byAccept map[*ssa.Functi
 			seen[in.handler] = true
 			fns = append(fns, in.handler)
 		}
-		if in.owner.Name() == "accept" {
+		if fname(in.owner) == "accept" {
 			byAccept[in.handler] = true
 		}
 	}
@@ -364,7 +364,7 @@ func checkC14(p *load.Program, r *kit.Report) {
 		return
 	}
 	for _, f := range fns {
-		consumeCheck(p, r, "CONSUME", f, byAccept[f] && f.Name() == "handleHeadersTrack", f.Name() == "handleInventory" && inventoryInstalledWithManager(p))
+		consumeCheck(p, r, "CONSUME", f, byAccept[f] && fname(f) == "handleHeadersTrack", fname(f) == "handleInventory" && inventoryInstalledWithManager(p))
 	}
 	checkFrameHelpers(p, r, "FRAME-HELPERS")
 	checkHandlerBlocking(p, r, "BLOCKING-OP", fns)
@@ -386,11 +386,11 @@ func inventoryInstalledWithManager(p *load.Program) bool {
 	})
 	ok := len(gs) > 0
 	for _, in := range handlerInstalls(p) {
-		if in.owner == acc && in.handler != nil && in.handler.Name() == "handleInventory" {
+		if in.owner == acc && in.handler != nil && fname(in.handler) == "handleInventory" {
 			if d, _ := kit.DominatedByEdges(acc, in.in, edgesOf(gs, true), nil, p.Pos); !d {
 				ok = false
 			}
-		} else if in.handler != nil && in.handler.Name() == "handleInventory" {
+		} else if in.handler != nil && fname(in.handler) == "handleInventory" {
 			ok = false
 		}
 	}
@@ -507,7 +507,7 @@ func checkFrameHelpers(p *load.Program, r *kit.Report, rule string) {
 			if kit.CallID(c) == "io.ReadFull" {
 				reads++
 				l := lin.LenOf(c.Call.Args[1]).String()
-				if !(l == "1024" || strings.Contains(l, "%") || strings.Contains(l, "p:n")) {
+				if !(l == "1024" || strings.Contains(l, "%") || strings.Contains(l, pAtom(f, 1).String())) {
 					bad = "unexpected read size " + l
 				}
 				// error returned
@@ -522,7 +522,7 @@ func checkFrameHelpers(p *load.Program, r *kit.Report, rule string) {
 			}
 			if kit.CallID(c) == "io.CopyN" {
 				reads++
-				if !lin.Of(c.Call.Args[2]).Equal(kit.LinAtom("p:n")) {
+				if !lin.Of(c.Call.Args[2]).Equal(pAtom(f, 1)) {
 					bad = "CopyN does not discard n bytes"
 				}
 			}
